@@ -545,6 +545,9 @@ pub struct ShardResult {
     pub stopped_by: String,
     pub next_index: u64,
     pub exhausted: bool,
+    /// the case budget this process was started with (lets the driver resume a stalled shard)
+    #[serde(default)]
+    pub max_cases: u64,
 }
 
 pub struct ShardArgs {
@@ -556,6 +559,11 @@ pub struct ShardArgs {
     pub start_index: u64,
     pub max_cases: u64,
     pub budget: Duration,
+    /// case indices not to evaluate (hang / slow candidates the driver has taken over)
+    pub skip: Vec<u64>,
+    /// write `<path>.partial` (+ `.partial.hashes`) every few seconds so that a process stopped by
+    /// the watchdog does not lose what it had observed
+    pub checkpoint: Option<String>,
 }
 
 /// Shared with the watchdog thread: index of the case being evaluated + heartbeat.
@@ -572,6 +580,28 @@ pub fn run_shard(a: &ShardArgs, progress: Option<Arc<Progress>>) -> (ShardResult
     let mut cases = 0u64;
     let mut stopped_by = "count";
     let mut exhausted = false;
+    let mut last_ckpt = Instant::now();
+    let snapshot = |obs: &Obs, viols: &BTreeMap<String, ViolRec>, cases: u64, k: u64, stopped_by: &str, exhausted: bool| -> (ShardResult, Vec<u64>) {
+        let hashes: Vec<u64> = obs.nontrivial.iter().copied().collect();
+        let res = ShardResult {
+            prop: a.prop.clone(),
+            shard: a.shard,
+            evaluations: obs.evaluations,
+            cases,
+            inconclusive: obs.inconclusive,
+            counters: obs.counters.clone(),
+            sets: obs.sets.iter().map(|(k, v)| (k.clone(), v.iter().cloned().collect())).collect(),
+            samples: obs.samples.clone(),
+            nontrivial: hashes.len() as u64,
+            violations: viols.values().cloned().collect(),
+            wall_s: start.elapsed().as_secs_f64(),
+            stopped_by: stopped_by.to_string(),
+            next_index: k,
+            exhausted,
+            max_cases: a.max_cases,
+        };
+        (res, hashes)
+    };
     loop {
         if cases >= a.max_cases {
             break;
@@ -582,6 +612,18 @@ pub fn run_shard(a: &ShardArgs, progress: Option<Arc<Progress>>) -> (ShardResult
         }
         // case index space is striped over shards
         let idx = k * a.nshards as u64 + a.shard as u64;
+        if a.skip.contains(&idx) {
+            k += 1;
+            cases += 1;
+            continue;
+        }
+        if let Some(path) = &a.checkpoint {
+            if last_ckpt.elapsed() >= Duration::from_secs(2) {
+                let (res, hashes) = snapshot(&obs, &viols, cases, k, "watchdog", false);
+                write_result(&format!("{}.partial", path), &res, &hashes);
+                last_ckpt = Instant::now();
+            }
+        }
         if let Some(p) = &progress {
             p.current.store(idx, Ordering::SeqCst);
             p.beat.fetch_add(1, Ordering::SeqCst);
@@ -608,22 +650,22 @@ pub fn run_shard(a: &ShardArgs, progress: Option<Arc<Progress>>) -> (ShardResult
         p.current.store(u64::MAX, Ordering::SeqCst);
         p.beat.fetch_add(1, Ordering::SeqCst);
     }
-    let hashes: Vec<u64> = obs.nontrivial.iter().copied().collect();
-    let res = ShardResult {
-        prop: a.prop.clone(),
-        shard: a.shard,
-        evaluations: obs.evaluations,
-        cases,
-        inconclusive: obs.inconclusive,
-        counters: obs.counters.clone(),
-        sets: obs.sets.iter().map(|(k, v)| (k.clone(), v.iter().cloned().collect())).collect(),
-        samples: obs.samples.clone(),
-        nontrivial: hashes.len() as u64,
-        violations: viols.into_values().collect(),
-        wall_s: start.elapsed().as_secs_f64(),
-        stopped_by: stopped_by.to_string(),
-        next_index: k,
-        exhausted,
-    };
+    let (res, hashes) = snapshot(&obs, &viols, cases, k, stopped_by, exhausted);
     (res, hashes)
+}
+
+/// Result file + its hash side file, written atomically (tmp + rename).
+pub fn write_result(path: &str, res: &ShardResult, hashes: &[u64]) {
+    let mut hb = Vec::with_capacity(hashes.len() * 8);
+    for h in hashes {
+        hb.extend_from_slice(&h.to_le_bytes());
+    }
+    let put = |p: String, bytes: &[u8]| {
+        let tmp = format!("{}.tmp", p);
+        if std::fs::write(&tmp, bytes).is_ok() {
+            let _ = std::fs::rename(&tmp, &p);
+        }
+    };
+    put(format!("{}.hashes", path), &hb);
+    put(path.to_string(), serde_json::to_string(res).unwrap().as_bytes());
 }
